@@ -17,7 +17,44 @@ pub assume_specification [u32::overflowing_sub](a: u32, b: u32) -> (r: (u32, boo
 pub assume_specification [u32::overflowing_add](a: u32, b: u32) -> (r: (u32, bool))
     ensures r.0 == a.wrapping_add(b);
 
-pub struct AtomicMove<const BUFFER_SIZE: usize> { pub head: AtomicU32, pub tail: AtomicU32, pub dequeuer_head: AtomicU32, pub enqueuer_tail: AtomicU32,
+/// PROTOCOL-TYPED counters (DESIGN §3.5 A-step): S-model values, but each counter only offers the transitions the lock-free protocol allows a
+/// thread to make; any other write (`store`, `swap`, `fetch_sub`, a compare-exchange by another delta) is a failed obligation -- such an edit
+/// is sequentially invisible yet breaks the protocol under concurrency (e.g. a blind `fetch_sub` instead of the receding compare-exchange)
+pub struct TicketCounter { pub v: u32 }      // enqueuer_tail, dequeuer_head: take a ticket (fetch_add 1) or recede it (CAS t+1 -> t)
+impl TicketCounter {
+    pub open spec fn view(&self) -> u32 { self.v }
+    pub fn load(&self, o: Ordering) -> (r: u32) ensures r == self@ { self.v }
+    pub fn fetch_add(&mut self, d: u32, o: Ordering) -> (r: u32) requires d == 1 ensures r == old(self)@, final(self)@ == old(self)@.wrapping_add(1) { let r = self.v; self.v = self.v.wrapping_add(d); r }
+    pub fn compare_exchange_weak(&mut self, cur: u32, new: u32, o1: Ordering, o2: Ordering) -> (r: Result<u32, u32>)
+        requires cur == new.wrapping_add(1),
+        ensures old(self)@ == cur ==> r == Ok::<u32, u32>(cur) && final(self)@ == new, old(self)@ != cur ==> r == Err::<u32, u32>(old(self)@) && final(self)@ == old(self)@,
+    { if self.v == cur { self.v = new; Ok(cur) } else { Err(self.v) } }
+    pub fn compare_exchange(&mut self, cur: u32, new: u32, o1: Ordering, o2: Ordering) -> (r: Result<u32, u32>)
+        requires cur == new.wrapping_add(1),
+        ensures old(self)@ == cur ==> r == Ok::<u32, u32>(cur) && final(self)@ == new, old(self)@ != cur ==> r == Err::<u32, u32>(old(self)@) && final(self)@ == old(self)@,
+    { if self.v == cur { self.v = new; Ok(cur) } else { Err(self.v) } }
+    #[verifier::external_body] pub fn fetch_sub(&mut self, d: u32, o: Ordering) -> u32 requires false { unimplemented!() }
+    #[verifier::external_body] pub fn store(&mut self, v: u32, o: Ordering) requires false { }
+    #[verifier::external_body] pub fn swap(&mut self, v: u32, o: Ordering) -> u32 requires false { unimplemented!() }
+}
+pub struct CommitCounter { pub v: u32 }      // tail, head: advance in ticket order only (CAS t -> t+1)
+impl CommitCounter {
+    pub open spec fn view(&self) -> u32 { self.v }
+    pub fn load(&self, o: Ordering) -> (r: u32) ensures r == self@ { self.v }
+    pub fn compare_exchange_weak(&mut self, cur: u32, new: u32, o1: Ordering, o2: Ordering) -> (r: Result<u32, u32>)
+        requires new == cur.wrapping_add(1),
+        ensures old(self)@ == cur ==> r == Ok::<u32, u32>(cur) && final(self)@ == new, old(self)@ != cur ==> r == Err::<u32, u32>(old(self)@) && final(self)@ == old(self)@,
+    { if self.v == cur { self.v = new; Ok(cur) } else { Err(self.v) } }
+    pub fn compare_exchange(&mut self, cur: u32, new: u32, o1: Ordering, o2: Ordering) -> (r: Result<u32, u32>)
+        requires new == cur.wrapping_add(1),
+        ensures old(self)@ == cur ==> r == Ok::<u32, u32>(cur) && final(self)@ == new, old(self)@ != cur ==> r == Err::<u32, u32>(old(self)@) && final(self)@ == old(self)@,
+    { if self.v == cur { self.v = new; Ok(cur) } else { Err(self.v) } }
+    #[verifier::external_body] pub fn fetch_add(&mut self, d: u32, o: Ordering) -> u32 requires false { unimplemented!() }
+    #[verifier::external_body] pub fn fetch_sub(&mut self, d: u32, o: Ordering) -> u32 requires false { unimplemented!() }
+    #[verifier::external_body] pub fn store(&mut self, v: u32, o: Ordering) requires false { }
+    #[verifier::external_body] pub fn swap(&mut self, v: u32, o: Ordering) -> u32 requires false { unimplemented!() }
+}
+pub struct AtomicMove<const BUFFER_SIZE: usize> { pub head: CommitCounter, pub tail: CommitCounter, pub dequeuer_head: TicketCounter, pub enqueuer_tail: TicketCounter,
     /// ghost (R7): ids of reserved slots whose payload has been written (ptr::write / setter) and not yet published
     pub written: Ghost<Set<u32>>,
     /// ghost (R7): ids of leaked-to-consumer slots whose payload has been moved out (ptr::read) and not yet released
